@@ -3,7 +3,7 @@
 import sys, os, json, shutil, glob, subprocess
 name, sid, prop, caught, missed, strengthened = sys.argv[1:7]
 needs = ' '.join(sys.argv[7:])
-src = '/tmp/seed/' + name
+src = os.environ.get('SEEDROOT','/tmp/seed') + '/' + name
 dst = '/verif/seeded/' + sid
 os.makedirs(dst, exist_ok=True)
 shutil.copy(src + '/patch.diff', dst + '/patch.diff')
